@@ -174,3 +174,116 @@ Print Assumptions c03_unique_key. Print Assumptions c03_sound. Print Assumptions
 Print Assumptions c03_least_fixed_point. Print Assumptions c03_sound_at_every_iteration. Print Assumptions c03_inputs_raised. Print Assumptions c03_shipped_lattices. Print Assumptions c03_lattice_in_universe.
 Print Assumptions c03_example_hypotheses. Print Assumptions c03_example_runs.
 Print Assumptions c03_composite_columns_are_lattices. Print Assumptions c03_composite_join_moves_every_component.
+
+(* ================= through the PLANNER model (Plan/PlanModel.v compile_model, Plan/PlanLat*.v) =================
+   The plan need not be dumped and checked per program: for every core program meeting wf_core and the decidable wf_lat (exact:
+   c03_wf_lat_exact) and every SCC partition meeting sccs_ok, the plan the planner model computes passes the validator AND the
+   lattice plan checks, so planner + lattice engine (serial and parallel models) compute the least fixed point / stratified model.
+   Tied by gen/plan_lat.py (model plan = dumped plan on lattice programs; hypotheses evaluated on every real desugared program). *)
+From Coq Require Import List ZArith Bool Arith Permutation.
+From AV Require Import Engine.Core Engine.Eval Engine.Validate Engine.Naive Engine.InterfaceAgg Engine.Strat.
+From AV Require Import LatEngine.LatSyntax LatEngine.LatEval LatEngine.LatPlan LatEngine.LatSem LatEngine.LatKeys LatEngine.LatMain.
+From AV Require Import LatEngine.LatAggEval LatEngine.LatAggTrans LatEngine.LatAggInv LatEngine.LatAggSem LatEngine.LatAggMain.
+From AV Require Import LatEngine.LatParModel LatEngine.LatParMain LatEngine.LatParAggModel LatEngine.LatParAggMain.
+From AV Require Import LatEngine.LatVocab LatEngine.LatExample.
+From AV Require Import Plan.PlanModel Plan.PlanWf Plan.PlanProofs Plan.PlanLatWf Plan.PlanLatProofs Plan.PlanLatMain.
+Import ListNotations.
+(* ================================================================ for Props/C03.v ================================================================ *)
+
+(* the planner never indexes a lattice relation on its lattice column: the plan computed for a program meeting wf_lat passes the
+   lattice index check of the C03 engine model - for EVERY partition handed to the planner (no hypothesis on sccs, none on arities) *)
+Theorem c03_planner_lat_plan_ok : forall islat arities P sccs,
+  wf_lat islat arities P = true -> no_agg P = true ->
+  lat_plan_ok islat arities (compile_model arities P sccs) = true.
+Proof. exact compile_model_lat_plan_ok. Qed.
+
+(* least fixed point and one row per key, with the plan COMPUTED: every well-formed monotone lattice program, every ok partition *)
+Theorem c03_planner_least_fixed_point :
+  forall (V : Type) (I : linterp V) islat lle jm shuffle swap_oracle arities P sccs Rin fuel st,
+  veqb_ok I -> (forall r, islat r = true -> lat_laws (lle r) (jm r)) ->
+  (forall n l x, In x (shuffle n l) <-> In x l) ->
+  arities_functional arities -> no_agg P = true -> monotone_program I islat lle P ->
+  wf_core arities P = true -> wf_lat islat arities P = true -> sccs_ok P sccs = true ->
+  LatMain.input_ok I islat lle arities Rin ->
+  LatEval.run_plan I islat jm shuffle swap_oracle fuel (compile_model arities P sccs) Rin = Some st ->
+  let F := dbof (l_rows st) in
+  (directed I islat lle F /\ closedH I islat lle P F /\ dble I islat lle (dbof Rin) F /\
+   forall J : db, directed I islat lle J -> closedH I islat lle P J -> dble I islat lle (dbof Rin) J -> dble I islat lle F J)
+  /\ forall r, islat r = true -> NoDup (map tkey (l_rows st r)).
+Proof. exact planner_lat_engine_least_fixed_point. Qed.
+
+(* the same for every run of the parallel model (ascent_par!) of the computed plan *)
+Theorem c03_planner_par_least_fixed_point :
+  forall (V : Type) (I : linterp V) islat lle jm arities P sccs Rin st,
+  veqb_ok I -> (forall r, islat r = true -> lat_laws (lle r) (jm r)) ->
+  arities_functional arities -> no_agg P = true -> monotone_program I islat lle P ->
+  wf_core arities P = true -> wf_lat islat arities P = true -> sccs_ok P sccs = true ->
+  LatMain.input_ok I islat lle arities Rin ->
+  par_lat_run_plan I islat jm (compile_model arities P sccs) Rin st ->
+  let F := dbof (l_rows st) in
+  (directed I islat lle F /\ closedH I islat lle P F /\ dble I islat lle (dbof Rin) F /\
+   forall J : db, directed I islat lle J -> closedH I islat lle P J -> dble I islat lle (dbof Rin) J -> dble I islat lle F J)
+  /\ forall r, islat r = true -> NoDup (map tkey (l_rows st r)).
+Proof. exact planner_par_lat_engine_least_fixed_point. Qed.
+
+(* parallel and serial runs of the computed plan end with the same rows *)
+Theorem c03_planner_par_equals_serial :
+  forall (V : Type) (I : linterp V) islat lle jm arities P sccs Rin shuffle swap_oracle fuel st_par st_ser,
+  veqb_ok I -> (forall r, islat r = true -> lat_laws (lle r) (jm r)) ->
+  arities_functional arities -> no_agg P = true -> monotone_program I islat lle P ->
+  wf_core arities P = true -> wf_lat islat arities P = true -> sccs_ok P sccs = true ->
+  LatMain.input_ok I islat lle arities Rin ->
+  (forall n l x, In x (shuffle n l) <-> In x l) ->
+  par_lat_run_plan I islat jm (compile_model arities P sccs) Rin st_par ->
+  LatEval.run_plan I islat jm shuffle swap_oracle fuel (compile_model arities P sccs) Rin = Some st_ser ->
+  (forall r t, In t (l_rows st_par r) <-> In t (l_rows st_ser r))
+  /\ (forall r, islat r = true -> Permutation (l_rows st_par r) (l_rows st_ser r)).
+Proof. exact planner_par_lat_equals_serial. Qed.
+
+(* the purely syntactic condition (first clause of the body and the clause directly after it, instead of the planner's own
+   simple-join test) is sufficient *)
+Theorem c03_wf_lat_syntactic : forall islat arities P, wf_lat_syn islat arities P = true -> wf_lat islat arities P = true.
+Proof. exact wf_lat_of_syn. Qed.
+
+(* wf_lat is EXACT: on an ok partition the plan computed for a well-formed program passes the index check ONLY IF the program
+   meets wf_lat (so the hypothesis cannot be weakened without changing the engine model) *)
+Theorem c03_wf_lat_exact : forall islat arities P sccs,
+  wf_core arities P = true -> sccs_ok P sccs = true ->
+  alat_plan_ok islat arities (compile_model arities P sccs) = true -> wf_lat islat arities P = true.
+Proof. exact wf_lat_exact. Qed.
+
+(* non-vacuity: the shortest-path program of LatExample.v meets every hypothesis, the planner model computes exactly the plan the
+   real macro dumped for it, and the run of the computed plan is the least fixed point *)
+Example c03_planner_example :
+  wf_core sp_arities sp_prog = true /\ wf_lat sp_islat sp_arities sp_prog = true /\ sccs_ok sp_prog sp_sccs = true
+  /\ compile_model sp_arities sp_prog sp_sccs = sp_plan
+  /\ exists st,
+       LatEval.run_plan lv_interp sp_islat sp_jm lv_shuffle lv_swap 40 (compile_model sp_arities sp_prog sp_sccs) sp_input = Some st
+       /\ length (l_rows st 1%nat) = 25%nat /\ In [0; 4; 4]%Z (l_rows st 1%nat)
+       /\ (let F := dbof (l_rows st) in
+           directed lv_interp sp_islat sp_lle F /\ closedH lv_interp sp_islat sp_lle sp_prog F
+           /\ dble lv_interp sp_islat sp_lle (dbof sp_input) F
+           /\ forall J : db, directed lv_interp sp_islat sp_lle J -> closedH lv_interp sp_islat sp_lle sp_prog J ->
+                             dble lv_interp sp_islat sp_lle (dbof sp_input) J -> dble lv_interp sp_islat sp_lle F J)
+       /\ forall r, sp_islat r = true -> NoDup (map tkey (l_rows st r)).
+Proof.
+  destruct sp_hyps as (H1 & H2 & _ & H4 & _).
+  exact (conj H1 (conj H2 (conj H4 (conj sp_plan_computed sp_planned_run)))).
+Qed.
+
+(* the hypothesis is needed: a join on the lattice value makes the planner build an index on the lattice column; the plan is
+   accepted by the validator and rejected by the lattice index check *)
+Example c03_planner_wf_lat_needed :
+  wf_core sp_arities sp_bad_prog = true /\ wf_lat sp_islat sp_arities sp_bad_prog = false
+  /\ validate sp_arities sp_bad_prog (compile_model sp_arities sp_bad_prog [[0%nat]]) = true
+  /\ lat_plan_ok sp_islat sp_arities (compile_model sp_arities sp_bad_prog [[0%nat]]) = false.
+Proof. exact sp_bad. Qed.
+
+Print Assumptions c03_planner_lat_plan_ok.
+Print Assumptions c03_planner_least_fixed_point.
+Print Assumptions c03_planner_par_least_fixed_point.
+Print Assumptions c03_planner_par_equals_serial.
+Print Assumptions c03_wf_lat_syntactic.
+Print Assumptions c03_wf_lat_exact.
+Print Assumptions c03_planner_example.
+Print Assumptions c03_planner_wf_lat_needed.
